@@ -59,6 +59,7 @@ def run(F, tier):
     grules.g9(rep, tms)
     grules.g10(rep, tms)
     grules.g11(rep, tms)
+    grules.g12(rep, tms)
     options.o1(rep, F, ft, tms)
     co_occurrence(rep, tms, ft)
     # field level: what each field parser accepts, what it stores and what it writes back, against the reference
